@@ -14,7 +14,7 @@ import numpy as np
 from hypothesis import strategies as st
 
 from tqv import gen
-from tqv.core import SubCheck, Violation, req
+from tqv.core import SubCheck, Violation, req, unlisted_rejection
 from tqv.props.c04 import (
     apply_choi_ref,
     apply_ref,
@@ -513,7 +513,7 @@ def check_reject(case):
         got = complementary_channel(list(ks))
     except ValueError:
         return
-    raise Violation(f"complementary_channel accepted a family that is {why}; returned {len(got)} operators", "comp:accepts-" + ("nonsquare" if not square else "nontp"))
+    unlisted_rejection(f"complementary_channel accepted a family that is {why}; returned {len(got)} operators", "comp:accepts-" + ("nonsquare" if not square else "nontp"))
 
 
 SUBCHECKS = [
